@@ -816,8 +816,9 @@ theorem acceptDelivery_shr {s s' : BState} {c : ConnId} {x : BConn} {b : BSess} 
             some ((s.setSessOf c b').setConn c
               (retake { x with deqHand := false, deqChan := min s.cfg.window (x.deqChan + 1) })))
          else
-          (if (b'.sess.nextID).1 ≠ id then none else
-            some ((s.setSessOf c { b' with sess := (b'.sess.nextID).2.savePacket .outgoing (.publish out false id) }).setConn c
+          (if (b'.sess.freshID).1 = 0 then none else
+           if (b'.sess.freshID).1 ≠ id then none else
+            some ((s.setSessOf c { b' with sess := (b'.sess.freshID).2.savePacket .outgoing (.publish out false id) }).setConn c
               (retake { x with deqHand := false })))) = some r → b'.sess = b.sess → Shr s r := by
       intro b' out r hr hw
       have hrec : ∀ z : BConn, z.phase = x.phase → z.alive = x.alive → z.procOut = x.procOut → z.ackOut = x.ackOut →
@@ -833,11 +834,14 @@ theorem acceptDelivery_shr {s s' : BState} {c : ConnId} {x : BConn} {b : BSess} 
             (Shr.setConn (by rw [setSessOf_conn?]; exact hx) (hrec _ rfl rfl rfl rfl))
       · split at hr
         · cases hr
-        · injection hr with hr; rw [← hr]
-          refine (Shr.setSessOf hb ?_).trans (Shr.setConn (by rw [setSessOf_conn?]; exact hx) (hrec _ rfl rfl rfl rfl))
-          intro h
-          have : CleanStore b'.sess.outgoing := by rw [hw]; exact h
-          exact cleanStore_save (st := (b'.sess.nextID).2.outgoing) this (p := .publish out false id) rfl
+        · split at hr
+          · cases hr
+          · injection hr with hr; rw [← hr]
+            refine (Shr.setSessOf hb ?_).trans (Shr.setConn (by rw [setSessOf_conn?]; exact hx) (hrec _ rfl rfl rfl rfl))
+            intro h
+            have : CleanStore (b'.sess.freshID).2.outgoing := by
+              rw [MemorySession.freshID_outgoing, hw]; exact h
+            exact cleanStore_save (st := (b'.sess.freshID).2.outgoing) this (p := .publish out false id) rfl
     simp only at ha
     split at ha
     · rename_i s1 hfs
